@@ -116,6 +116,8 @@ def execute(ctx, case):
         if len(pos) == 0 or len(neg) == 0:
             return False
         np.random.seed(case.get("_seed", 0))
+        if via in ("boot_smoothing", "boot_by_label", "sample_swap") and np.asarray(s.pos).dtype.kind != "f":
+            s = Scores(np.asarray(s.pos, dtype=float), np.asarray(s.neg, dtype=float), **kw)  # smoothing only on float scores
         cfg = {"boot_replacement": BootstrapConfig(sampling_method="replacement"),
                "boot_smoothing": BootstrapConfig(sampling_method="dynamic", smoothing=True),
                "boot_single_pass": BootstrapConfig(sampling_method="single_pass"),
